@@ -113,9 +113,10 @@ _SW = {}
 
 
 def sweeper(legacy=True):
-    if legacy not in _SW:
-        _SW[legacy] = sweep.Sweeper(legacy)
-    return _SW[legacy]
+    key = (os.getpid(), legacy)
+    if key not in _SW:
+        _SW[key] = sweep.Sweeper(legacy)
+    return _SW[key]
 
 
 def run_case(case, budget=2.0):
